@@ -24,7 +24,7 @@ Definition process_of (o : outcome) : option pout :=
   | OutStdout h => Some (mkP (text_of_stdout h ++ [c_nl]) [] (exit_code (FStdout h)) None)     (* println! *)
   | OutCompletion s => Some (mkP s [] (exit_code (FCompletion s)) None)                         (* print! *)
   | OutStderr m =>
-    Some (mkP [] (error_prefix ++ text_of_stderr m ++ [c_nl]) (exit_code (FStderr m)) None)     (* eprintln! *)
+    Some (mkP [] (error_prefix ++ text_of_stderr m ++ [c_nl]) (exit_code (FStderr m None)) None)     (* eprintln! *)
   | OutPanic _ | OutFuel => None
   end.
 End Proc.
